@@ -37,3 +37,6 @@ func TestVerifList(t *testing.T) {
 
 // TestProp runs the sub-check named by $VERIF_PROP.
 func TestProp(t *testing.T) { vs.RunNamed(t) }
+
+// FuzzProp is the coverage-guided variant of the sub-check named by $VERIF_PROP.
+func FuzzProp(f *testing.F) { vs.FuzzNamed(f) }
